@@ -91,6 +91,9 @@ func (m *c10mon) Check(s *sim.Sim, st *sim.Step) []*sim.Violation {
 				onlyLookups = false
 			}
 		}
+		if strings.HasSuffix(rec.AppHook, ":error") {
+			onlyLookups = false // the application's own logout listener failed: not a user lookup
+		}
 		if !onlyLookups || !right || rec.Status >= 500 {
 			m.stats.Count("logout-during-backend-fault")
 			return vs
@@ -173,6 +176,10 @@ func c10Extra(s *sim.Sim) *sim.Action {
 		return act("logout", b, -9, "", "method", pickS(r, "GET", "POST", "DELETE", "PUT", "HEAD", "PATCH"))
 	case 2, 3, 4:
 		return act("visit", b, -9, "", "route", pickS(r, "/protected/bare", "/public", "/protected/full"))
+	case 6:
+		// a logout link that carries a return target — same-site, off-site, malformed: logging out does
+		// not depend on it
+		return act("logout", b, -9, "", "redir", pickS(r, "/after", "//evil.example/", "https://evil.example/x", "/\\evil.example", "/\t/evil.example", "javascript:alert(1)", "%zz", "/x?y=1&z=2", " "))
 	case 5:
 		// the user table is unreachable while the browser logs out
 		s.Pending = append(s.Pending, act("logout", b, -9, ""), act("visit", b, -9, "", "route", pickS(r, "/protected/bare", "/public")))
@@ -191,7 +198,7 @@ func init() {
 	prof.Cls = map[string]map[string]int{"login": {"ok": 80, "wrong": 12, "near": 4, "empty": 4}}
 	register(&Check{
 		ID: "C10", Level: "exploration",
-		Rule:  "states are harvested, not hand-made: the mixed random histories of the C01 generator (all flows, all module subsets, whitelists of 0/1/3 application keys, logout method GET/POST/DELETE) are cut at random points by a logout from whatever state the browser is in (logged in / half-authed via remember / mid-2FA login / mid-2FA setup / mid-e-mail-verify / mid-OAuth2 / SMS code outstanding / anonymous), followed by a visit; some logouts happen while the user table is unreachable (every user lookup of that request fails). Oracle: after the logout response the server-side session holds only whitelisted keys (values preserved) and flash keys, the jar has no rm cookie, the follow-up request is unauthenticated; any other method on /logout leaves uid, auth marks, pending logins and the cookie as they were. distinct_nontrivial = distinct (method, configured?, state labels, whitelist size, cookie present, mode, expire installed) signatures.",
+		Rule:  "states are harvested, not hand-made: the mixed random histories of the C01 generator (all flows, all module subsets, whitelists of 0/1/3 application keys, logout method GET/POST/DELETE) are cut at random points by a logout from whatever state the browser is in (logged in / half-authed via remember / mid-2FA login / mid-2FA setup / mid-e-mail-verify / mid-OAuth2 / SMS code outstanding / anonymous), followed by a visit; some logouts carry a redir parameter (same-site, off-site, malformed), some happen while the user table is unreachable (every user lookup of that request fails). Oracle: after the logout response the server-side session holds only whitelisted keys (values preserved) and flash keys, the jar has no rm cookie, the follow-up request is unauthenticated; any other method on /logout leaves uid, auth marks, pending logins and the cookie as they were. distinct_nontrivial = distinct (method, configured?, state labels, whitelist size, cookie present, mode, expire installed) signatures.",
 		Units: func(t string) int { return tierN(t, 700, 30000) },
 		Run: func(c *RunCtx, unit int) {
 			r := Rng(c.Seed, "C10", unit)
